@@ -474,7 +474,7 @@ theorem fee_send {s : State} {t : Tx} {sim : Bool} (h : WF s) (ha : anteOK s t s
 
 /-! ### the governance-controlled part of the state is framed by everything but `applyParam` -/
 
-def gov (s : State) : Params × List (String × Addr) × Addr := (s.p, s.acl, s.daoOwner)
+def gov (s : State) : Params × List (String × Addr) × Addr × (Int × String) := (s.p, s.acl, s.daoOwner, s.upgrade)
 
 theorem send_some {s s1 : State} (h : KeysAsc s.bal) {src dst : Addr} {amt : Int}
     (hs : send s src dst amt = some s1) :
@@ -814,7 +814,8 @@ theorem handle_stake_some {s s' : State} {k : Nat} {amt : Int} (h : handle s (.s
         simp
 
 theorem gov_handle {s s1 : State} {m : Msg} (h : handle s m = some s1)
-    (hm : ∀ src key val, m ≠ .changeParam src key val) : gov s1 = gov s := by
+    (hm : ∀ src key val, m ≠ .changeParam src key val)
+    (hu : ∀ src hh ver, m ≠ .upgrade src hh ver) : gov s1 = gov s := by
   cases m with
   | stake k amt =>
     obtain ⟨_, s0, s2, _, _, h0, _, hs, _, _, h2⟩ := handle_stake_some h
@@ -845,12 +846,7 @@ theorem gov_handle {s s1 : State} {m : Msg} (h : handle s m = some s1)
     all_goals first
       | (simp at h; done)
       | exact gov_burnFrom h
-  | upgrade src hh ver =>
-    simp only [handle] at h
-    repeat' (split at h)
-    all_goals first
-      | (simp at h; done)
-      | (simp at h; subst h; rfl)
+  | upgrade src hh ver => exact absurd rfl (hu src hh ver)
 
 
 theorem balOf_congr {s s' : State} (h : s'.bal = s.bal) (q : Addr) : balOf s' q = balOf s q := by
